@@ -82,11 +82,11 @@ prop('C05', 'other',
      drivers=[('bounded.steps', ['--prop', 'C05'])])
 prop('C04', 'other',
      'PROVED: in run_for every process invocation of one pass happens inside the polling loop, in which no update is applied (apply_update is only reachable through _send_updates after the loop; the loop is verified for an arbitrary visiting order of process_paths); in run_steps no update is applied while a layer is computed (ghost g_version frozen in the compute loop) and the views are valid (rebuilt after any expiring update) before the next layer or the next process is invoked (ghost g_views_valid, precondition of _process_state). BOUNDED: processes started together are shown identical states; steps of one layer see one committed state; the emitted trajectory is identical under permutations of the listing order (relational conclusion, not a postcondition of one call).',
-     drivers=[('bounded.steps', ['--prop', 'C04'])])
+     drivers=[('bounded.steps', ['--prop', 'C04']), ('bounded.sched', ['--prop', 'C04'])])
 
 prop('C08', 'other',
      'PROVED (all inputs): update_set, update_null, update_accumulate (int/float/mixed), update_nonnegative_accumulate (scalar branch) and update_merge (result is the right-biased deep merge of the update into the current value: unmentioned keys kept, new keys added, nested dicts merged) with deep_merge by contract. BOUNDED: the same laws through the real Store.apply_update (default updater, per-update _updater by name or function, _multi_update batches, dict_value, user functions, numpy arrays, units, unmentioned variables untouched, update object not modified).',
-     drivers=[('bounded.c08', [])], assumptions=[FLOATS])
+     drivers=[('bounded.c08', []), ('bounded.topo', ['--prop', 'C06'])], assumptions=[FLOATS])
 prop('C11', 'other',
      'PROVED (all inputs): divide_set, divide_set_value, divide_zero, divide_null, assert_no_divide, divide_binomial '
      '(conservation for whatever numpy returns) and divide_split: for every integer (any size, any sign) the daughters sum '
